@@ -36,7 +36,7 @@ pub fn main(args: &[String]) -> i32 {
     }
     let seed = verif_seed();
     println!("VERIF_SEED={} property={} tier={}", seed, id, tier);
-    match id {
+    let rc = match id {
         "C19" => c19::run(&tier, seed, replay),
         "C02" => c02::run(&tier, seed, replay),
         "C01" => c01::run(&tier, seed, replay),
@@ -47,5 +47,11 @@ pub fn main(args: &[String]) -> i32 {
             eprintln!("unknown property id {}", id);
             2
         }
+    };
+    let herr = crate::orch::harness_errors();
+    if !herr.is_empty() {
+        println!("HARNESS-ERROR: {} problem(s) inside the simulator; this run gives no verdict (exit 2)", herr.len());
+        return 2;
     }
+    rc
 }
